@@ -164,9 +164,20 @@ class Run:
             divert = bool((variant >> 6) & 1) and hops >= 2
             misname = bool((variant >> 7) & 1) and hops >= 2 and not divert
             thief = ("6.6.6.6", 6000)
+            # abandon: the first candidate the circuit is extended to answers late - after the originator has given up on
+            # it and the circuit has been extended to another candidate; its answer then reaches the first hop
+            abandon = variant % 8 == 5 and hops >= 2
+            if abandon:
+                divert = misname = False
 
             def hook(fl):
                 cell = parse_cell(fl.data, w.prefix)
+                if abandon and cell is not None and cell["plaintext"] and cell["message"][:1] == b"\x03" and \
+                        "cid" in seen and fl.dst == seen["hop"] and fl.dst != origin.address and "late" not in seen:
+                    seen["late"] = fl
+                    return []
+                if abandon and cell is not None and cell["plaintext"] and cell["message"][:1] == b"\x03":
+                    return None
                 if cell is not None and divert and not cell["plaintext"] and fl.origin is origin.raw_endpoint and \
                         cell["circuit_id"] == seen.get("cid") and "diverted" not in seen:
                     # the originator's (encrypted) extend cell is lost on its way; a third party that copied it off the
@@ -203,11 +214,42 @@ class Run:
                 return None
             before_other = self.digest_without({})
             w.net.on_send = hook
+            nht = origin.overlay.settings.next_hop_timeout
             try:
                 random.seed(op[3] * 1009 + i * 7919 + 1)
+                if abandon:
+                    # an originator that is less patient than the default (a setting; a relay's own bookkeeping of the
+                    # unanswered create lives 10 s whatever the originator is configured to)
+                    origin.overlay.settings.next_hop_timeout = 3
                 circuit = origin.overlay.create_circuit(hops)
                 await w.net.settle()
-                if (divert or misname) and circuit is not None:
+                if abandon and circuit is not None:
+                    try:
+                        await asyncio.wait_for(asyncio.shield(circuit.ready), 60.0)
+                    except asyncio.TimeoutError:
+                        pass
+                    w.net.on_send = None
+                    key = b""
+                    if "late" in seen and circuit.state == "READY":
+                        def tables():
+                            return {nd.idx: (sorted((k, r.circuit_id, tuple(r.hop.peer.address))
+                                                    for k, r in nd.overlay.relay_from_to.items()),
+                                             sorted(nd.overlay.exit_sockets),
+                                             sorted((k, len(ci.hops), ci.state) for k, ci in nd.overlay.circuits.items()))
+                                    for nd in w.nodes}
+                        t0 = tables()
+                        n0 = w.net.seq
+                        fl = seen["late"]
+                        w.net.inject(fl.src, fl.dst, fl.data, note="late answer to an abandoned extend")
+                        await w.net.settle()
+                        t1 = tables()
+                        if t0 != t1:
+                            diff = [(k, t0[k], t1[k]) for k in t0 if t0[k] != t1[k]][:1]
+                            self.fail("J2", "late_created", f"the answer of a candidate the originator had given up on "
+                                                            f"reached the first hop after the circuit had been extended to "
+                                                            f"another candidate and changed tunnel tables: {diff}")
+                        seen["late_done"] = 1
+                elif (divert or misname) and circuit is not None:
                     try:
                         await asyncio.wait_for(asyncio.shield(circuit.ready), 40.0)
                     except asyncio.TimeoutError:
@@ -242,6 +284,7 @@ class Run:
                         pass
             finally:
                 w.net.on_send = None
+                origin.overlay.settings.next_hop_timeout = nht
             if misname and circuit.state != "READY":
                 # (the create that was lost may have cost the circuit its last candidate: nothing is claimed about it;
                 # what matters is that the made-up answer did nothing to the tunnels it named)
@@ -252,6 +295,10 @@ class Run:
                     await self.send_and_check(c2, 9000 + c2["n"])
                 self.nontrivial = True
                 self.executed.append(("open_under_fire", hops, "misname:unbuilt"))
+                return
+            if abandon and (circuit is None or circuit.state != "READY"):
+                # (the lost answer may have cost the circuit its last candidate: nothing is claimed about that)
+                self.executed.append(("open_under_fire", hops, "abandon:unbuilt"))
                 return
             if circuit.state != "READY" or circuit.circuit_id not in origin.overlay.circuits:
                 self.fail("J2", "forged_created", f"a made-up created cell ({len(key)}-byte key, from "
@@ -268,7 +315,8 @@ class Run:
                 self.fail("J4", "build", "path of a ready circuit does not end in an exit entry")
             self.circuits.append(rec)
             self.nontrivial = True
-            self.executed.append(("open_under_fire", hops, "divert" if divert else "misname" if misname else variant % 5))
+            self.executed.append(("open_under_fire", hops, ("abandon:late" if "late_done" in seen else "abandon")
+                                  if abandon else "divert" if divert else "misname" if misname else variant % 5))
             if misname:
                 # whatever the made-up answer did shows when the other circuits are used
                 for c2 in [x for x in self.circuits if not x["dead"]][:-1]:
